@@ -29,6 +29,7 @@ Definition op_toB (o : @op Q) : @op bigQ :=
   | Resize l => Resize l
   | Clone => Clone
   | Reload => Reload
+  | SetLam l => SetLam (BigQ.of_Q l)
   end.
 
 Fixpoint forallb2 {A B} (f : A -> B -> bool) (a : list A) (b : list B) : bool :=
@@ -79,41 +80,45 @@ Definition check_bonus (tolb : bigQ) (Sbefore : list (list bigQ)) (ob : obs1) : 
                (o_arms ob) bs
   end.
 
-(* certificate state: Some A while sigma_inv is claimed to be the inverse of A = lam*I + sum v v^T *)
-Definition cert_step (lam : bigQ) (c : option (list (list bigQ))) (o : @op bigQ) : option (list (list bigQ)) :=
+(* certificate state: Some G while sigma_inv is claimed to be the inverse of A = lam*I + G, G = sum v v^T of the features
+   chosen since the last initialisation and lam = the agent's CURRENT lambda (it can change: SetLam) *)
+Definition cert_step (c : option (list (list bigQ))) (o : @op bigQ) : option (list (list bigQ)) :=
   match o with
-  | Act v => match c with Some A => Some (Bgram_step A v) | None => None end
-  | MutHook new => Some (@scal_id bigQ B0 (layer_numel new) lam)
+  | Act v => match c with Some G => Some (Bgram_step G v) | None => None end
+  | MutHook new => Some (@scal_id bigQ B0 (layer_numel new) B0)
   | Resize _ => None
   | _ => c
   end.
 
-Definition check_state (lam tol : bigQ) (s : @bstate bigQ) (c : option (list (list bigQ))) (ob : obs1) : bool :=
+Definition add_diag (l : bigQ) (G : list (list bigQ)) : list (list bigQ) :=
+  map2 (fun r i => map2 (fun x j => if Nat.eqb i j then BigQ.add_norm x l else x) r (seq 0 (length r))) G (seq 0 (length G)).
+
+Definition check_state (tol : bigQ) (s : @bstate bigQ) (c : option (list (list bigQ))) (ob : obs1) : bool :=
   (numel s =? o_numel ob) && Bool.eqb (bound s) (o_bound ob) &&
   has_dims (o_rows ob) (o_cols ob) (sig s) && (layer_numel (live s) =? o_rows ob) &&
   match o_sigma ob with
   | None => true
   | Some M =>
-      mat_close (BigQ.div_norm tol lam) (sig s) (toB M) &&
+      mat_close (BigQ.div_norm tol (lam s)) (sig s) (toB M) &&
       (* model-side sanity, exact: symmetric; inverse certificate; radicands of all arms >= 0 *)
       mat_eq (sig s) (@transpose_sq bigQ B0 (sig s)) &&
       match c with
-      | Some A => mat_eq (Bmatmul A (sig s)) (@scal_id bigQ B0 (length (sig s)) B1)
+      | Some G => mat_eq (Bmatmul (add_diag (lam s) G) (sig s)) (@scal_id bigQ B0 (length (sig s)) B1)
       | None => true
       end &&
       forallb (fun g => bq_le B0 (Bquad (sig s) (map BigQ.of_Q g))) (o_arms ob)
   end.
 
-Fixpoint check_trace (rr : bool) (lam tol : bigQ) (s : @bstate bigQ) (c : option (list (list bigQ)))
+Fixpoint check_trace (rr : bool) (tol : bigQ) (s : @bstate bigQ) (c : option (list (list bigQ)))
          (ops : list (@op bigQ)) (obs : list obs1) : bool :=
   match ops, obs with
   | [], [] => true
   | o :: ops', ob :: obs' =>
       let s' := Bstep rr s o in
-      let c' := cert_step lam c o in
-      check_state lam tol s' c' ob &&
+      let c' := cert_step c o in
+      check_state tol s' c' ob &&
       (match o with Act _ => check_bonus (BigQ.of_Q (1 # 1024)) (sig s) ob && check_choice ob | _ => true end) &&
-      check_trace rr lam tol s' c' ops' obs'
+      check_trace rr tol s' c' ops' obs'
   | _, _ => false
   end.
 
@@ -122,8 +127,8 @@ Definition check_hist (rr : bool) (lamq tolq : Q) (ly : layer) (ob0 : obs1) (ops
   let lam := BigQ.of_Q lamq in
   let tol := BigQ.of_Q tolq in
   let s0 := Binit lam ly in
-  let c0 := Some (@scal_id bigQ B0 (layer_numel ly) lam) in
-  check_state lam tol s0 c0 ob0 && check_trace rr lam tol s0 c0 (map op_toB ops) obs.
+  let c0 := Some (@scal_id bigQ B0 (layer_numel ly) B0) in
+  check_state tol s0 c0 ob0 && check_trace rr tol s0 c0 (map op_toB ops) obs.
 
 (* unit level: Mutations._reinit_bandit_grads on an integer-tagged matrix, exact *)
 (* [shifted]: which variant of the diagonal fill the tree exhibits (true = fixes/C19-resize-diagonal.patch);
